@@ -3,13 +3,14 @@
 (* for the driver.  One "case" state per outline of the bounded family     *)
 (* (spread over NB bucket states so that the TLC workers share them); from *)
 (* the history bases the table API state machine Access | AddRow | AddCol  *)
-(* is unfolded to op sequences of length HistLen.                          *)
+(* is unfolded to op sequences of length HistLen (HistLen + 1 if Deep).    *)
 EXTENDS Outline, TLC, Json
 CONSTANTS FullN,      \* outlines with <= FullN example rows in total: every template
           RotN,       \* ... with FullN < rows <= RotN: the template rotates with the case
           Rot4,       \* TRUE: the 2x2 shape (4 rows) with the reduced value pool {x, other column's name}
           HistN,      \* history bases have <= HistN rows
           HistLen,    \* length of the op sequences
+          Deep,       \* TRUE: op sequences of length HistLen + 1 from the bases with <= 1 row
           NB
 
 \* ---------------------------------------------------------------- templates (placeholders at every position class)
@@ -107,6 +108,7 @@ SchemaOf(c) == Schemas[SchemaNo(c)]
 
 \* history bases: templates 1 and 4, one value code, few rows
 HistCode == 6                          \* a = x, b = UC
+HistLenOf(c) == IF Deep /\ NRows(c) <= 1 THEN HistLen + 1 ELSE HistLen
 IsHistBase(c) == /\ c.t \in {1, 4} /\ NRows(c) <= HistN
                  /\ \A b \in DOMAIN c.rows : \A r \in DOMAIN c.rows[b] : c.rows[b][r] = HistCode
 
@@ -149,7 +151,7 @@ Init == ph = "start" /\ b = 0 /\ cs = NoCase /\ hs = NoHist
 Next == \/ ph = "start"  /\ ph' = "bucket" /\ b' \in 0..(NB - 1) /\ cs' = cs /\ hs' = hs
         \/ ph = "bucket" /\ ph' = "case" /\ b' = b /\ cs' \in {x \in Cases : Bucket(x) = b}
                          /\ hs' = [ops |-> <<>>, st |-> InitSt(Mk(cs')), preds |-> <<>>]
-        \/ /\ ph \in {"case", "hist"} /\ IsHistBase(cs) /\ Len(hs.ops) < HistLen
+        \/ /\ ph \in {"case", "hist"} /\ IsHistBase(cs) /\ Len(hs.ops) < HistLenOf(cs)
            /\ \E p \in OpsFor(hs.st.cur) :
                  LET op  == FullOp(hs.st.cur, p)
                      st2 == Apply(hs.st, op, S)
@@ -199,7 +201,7 @@ CountOrder == OnCase(LET o == O  C == ExpandCode(o, S)  P == Pairs(o)
 AltCells == << <<"Q">>, <<PB>> >>
 Isolation == OnCase(LET o == O  sc == S  C == ExpandCode(o, sc)  P == Pairs(o)
                     IN \A k \in DOMAIN P : \A j \in DOMAIN P \ {k} :
-                          ExpandCode([o EXCEPT !.blocks[P[j][1]].rows[P[j][2]].cells = AltCells], sc)[k] = C[k])
+                          ScenCode([o EXCEPT !.blocks[P[j][1]].rows[P[j][2]].cells = AltCells], sc, P[k][1], P[k][2]) = C[k])
 \* the cache: whenever no table is marked modified the cached scenarios are the expansion of the current tables,
 \* and they always are right after an access
 CacheCoherent == ph \in {"case", "hist"} =>
@@ -216,7 +218,7 @@ EmitCase == OnCase(LET o == O IN
                    PrintT(<<"CASE", ToJson([kind |-> "main", t |-> cs.t, sno |-> SchemaNo(cs), o |-> o, schema |-> S,
                                             ops |-> <<AccessOp>>,
                                             preds |-> <<StrScens(ExpandCode(o, S))>>])>>))
-EmitHist == (ph = "hist" /\ Len(hops) = HistLen /\ hops[HistLen].op = "access") =>
+EmitHist == (ph = "hist" /\ Len(hops) = HistLenOf(cs) /\ hops[Len(hops)].op = "access") =>
                PrintT(<<"CASE", ToJson([kind |-> "hist", t |-> cs.t, sno |-> SchemaNo(cs), o |-> Mk(cs), schema |-> S,
                                         ops |-> hs.ops, preds |-> hs.preds])>>)
 =============================================================================
